@@ -264,10 +264,15 @@ func vCodecDual[T any](l vLeafSpec[T]) {
 func VerifC15GenLeaves() { vMode = 3; VerifC01GenLeaves() }
 func VerifC15BoolUUID() {
 	vMode = 3
-	if verifChoice("type", 2) == 0 {
+	switch verifChoice("type", 4) {
+	case 0:
 		vOfLeaf("Bool", true, func() ColumnOf[bool] { return new(ColBool) }, func() bool { return verifBool("v") }, func(a, b bool) bool { return a == b })
-	} else {
+	case 1:
 		vOfLeaf("UUID", true, func() ColumnOf[uuid.UUID] { return new(ColUUID) }, vGenUUID, vEqUUID)
+	case 2:
+		vLeafDateTimeRaw()
+	case 3:
+		vLeafDateTime64Raw()
 	}
 }
 
